@@ -45,15 +45,14 @@ class C02(DiffProperty):
                   "deliver exactly ms and empty the ring), C02_ring_to_ring_all (composed with the writer ring); call level C02_stream_delivers_all. "
                   "Stream glue (mptio): C02_glue_step_refines (every mpt_stream_push / flush / poll / dispatch step of the glue model, with ANY kernel behaviour, is a sequence "
                   "of ring-level writer and reader operations that keeps the ring invariants and the relation 'bytes accepted by the reader ring + bytes in flight = bytes "
-                  "handed to the transport'), C02_glue_history_safe (every glue history from fresh streams of any capacity incl. none: unless the decoder reported a genuine "
-                  "decoding error, what the dispatcher handed to the handler is a prefix of the messages completed on the writer side as told by the return values of "
-                  "mpt_stream_push). "
+                  "handed to the transport'), C02_glue_history_safe (every glue history from fresh streams of any capacity incl. none: the reader's decoder NEVER reports a "
+                  "decoding error -- C02_queue_recv_no_error_on_stream_prefix: the bytes it is fed are always a prefix of a well-formed stream -- and what the dispatcher "
+                  "handed to the handler is a prefix of the messages completed on the writer side as told by the return values of mpt_stream_push). "
                   "Tied to the code by differential execution of the same ring-level model (state compared after every operation) on rings of many capacities/offsets "
                   "with arbitrary wire cuts incl. single-byte delivery, decided against the specification 'received = sent'")
     level_note = ("partial: (1) liveness of the stream glue (a drain delivers everything) is decided against the specification only; it is proved for the ring-level reader "
                   "protocol 'receive, enlarge by what is missing, receive' (C02_ring_round_delivers), whereas mpt_stream_dispatch enlarges in steps of 64 bytes per call; "
-                  "(2) partially arrived frames: safety only (that the decoder never reports an error on a proper prefix of an accepted frame is not a theorem, so the glue "
-                  "theorem carries the condition 'no genuine decoding error so far'); (3) not modelled: poll() paths with a timeout, POLLOUT handling, memory-mapped and text-mode "
+                  "(2) not modelled: poll() paths with a timeout, POLLOUT handling, memory-mapped and text-mode "
                   "streams. The glue model is tied to the code by differential execution with scripted transfers (three defects were found in the glue and repaired). "
                   "Theorems closed under the global context.")
     technique = "Coq theorems: the stream glue refines ring-level writer and reader histories, which refine the stream-level codec invariants; end-to-end safety (delivered is a prefix of sent) and ring-level liveness; mechanism-level differential check of the glue and ring models against the code"
